@@ -26,6 +26,7 @@ var cloneScratchFields = map[string]string{}
 func checkCloneComplete(c *core.Ctx) {
 	c.Rule("C12.R6", "a Clone built field by field carries every field of the source over (no field of the clone is left at its zero value or taken from a different field)", 20)
 	checkCloneLiteralAgreesWithConstructor(c)
+	checkCloneUnconditional(c)
 	n := 0
 	for _, p := range c.LibPkgs() {
 		pkg := p
@@ -357,4 +358,59 @@ func checkCloneLiteralAgreesWithConstructor(c *core.Ctx) {
 				"the constructor of "+nt.Obj().Name()+" sets "+strings.Join(missing, ", ")+", the composite literal of Clone does not: the field is nil/zero in the clone and the first method that uses it fails or computes with a zero")
 		})
 	}
+}
+
+// checkCloneUnconditional (C12.R8): a Clone of a sparse container copies every stored entry. A copy that is made only when
+// a test on the entry's value holds drops entries whose value is zero but which carry derivatives (or were stored on
+// purpose), so the clone is not observably equal to its source.
+func checkCloneUnconditional(c *core.Ctx) {
+	c.Rule("C12.R8", "Clone of the sparse containers copies every stored entry: no copy inside the loop over the stored values is guarded by a test on the entry", 8)
+	pkg := c.Root
+	info := pkg.TypesInfo
+	core.EachFunc(pkg, func(_ *ast.File, fd *ast.FuncDecl) {
+		if fd.Recv == nil || !strings.HasPrefix(fd.Name.Name, "Clone") || !strings.Contains(core.RecvTypeName(fd), "Sparse") {
+			return
+		}
+		cons := "(" + core.RecvTypeName(fd) + ")." + fd.Name.Name
+		ast.Inspect(fd.Body, func(n ast.Node) bool {
+			rs, ok := n.(*ast.RangeStmt)
+			if !ok {
+				return true
+			}
+			if !strings.HasSuffix(types.ExprString(rs.X), ".values") && !strings.HasSuffix(types.ExprString(rs.X), ".indices") {
+				return true
+			}
+			var vars []types.Object
+			for _, e := range []ast.Expr{rs.Key, rs.Value} {
+				if id, ok := e.(*ast.Ident); ok && id.Name != "_" {
+					vars = append(vars, info.Defs[id])
+				}
+			}
+			bad := token.NoPos
+			ast.Inspect(rs.Body, func(m ast.Node) bool {
+				is, ok := m.(*ast.IfStmt)
+				if !ok {
+					return true
+				}
+				ast.Inspect(is.Cond, func(k ast.Node) bool {
+					if id, ok := k.(*ast.Ident); ok {
+						for _, v := range vars {
+							if v != nil && info.Uses[id] == v && bad == token.NoPos {
+								bad = is.Pos()
+							}
+						}
+					}
+					return true
+				})
+				return true
+			})
+			c.Check(bad == token.NoPos, "C12.R8", cons, "every stored entry copied", func() token.Pos {
+				if bad != token.NoPos {
+					return bad
+				}
+				return rs.Pos()
+			}(), "the loop over the stored entries copies an entry only under a test on that entry: entries that fail the test (value zero with non-zero derivatives, explicitly stored zeros) are missing from the clone")
+			return true
+		})
+	})
 }
